@@ -14,7 +14,7 @@ import sys
 VERIF = os.path.dirname(os.path.dirname(os.path.abspath(__file__)))
 # seed directory -> checks expected to detect it besides the property it was written for
 EXTRA = {
- 'C01-store-check-outside-transport-lock': ['C06'], 'C01-local-id-rollback-on-failed-open': ['C01', 'C12'],
+ 'C01-store-check-outside-transport-lock': ['C06'],
  'C04-local-id-read-outside-lock': ['C14', 'C06'], 'C05-available-not-reset-on-reconnect': ['C13'], 'C06-local-id-read-after-unlock': ['C14'],
  'C07-shared-sync-send-buffer': ['C06'], 'C13-stale-available-on-reconnect': ['C05'], 'C13-auth-retry-accepted-as-cnxn': ['C05'],
  'C02-short-write-cursor-reset': ['C15'], 'C02-async-unlocked-ack': ['C06'], 'C09-flush-drops-early-reply': ['C10', 'C04'],
